@@ -254,6 +254,9 @@ def make_replay(pid, spec, r, obs, cfile, lines, spans, outdir, tier):
                                     text=True, timeout=60)
                 out = rp.stdout[-3000:]
                 reproduced = 'REPLAY-FAIL' in out
+                if rp.returncode < 0:
+                    reproduced = True
+                    out += '\nREPLAY-FAIL: native run of the extracted text died with signal %d (e.g. SIGFPE = 8 division by zero, SIGSEGV = 11)\n' % (-rp.returncode)
                 rec['native_replay'] = dict(route='R2 (extracted text compiled with gcc, choices scripted from the trace)',
                                             status='reproduced' if reproduced else 'not reproduced', output=out,
                                             cmd='gcc -DVF_NATIVE %s ; VF_TRACE=%s %s' % (nfile, tfile, exe))
